@@ -54,7 +54,8 @@ def build_inventory(forest):
             elif isinstance(st, (ast.Import, ast.ImportFrom)):
                 for a in st.names:
                     names.add((a.asname or a.name).split('.')[0])
-        inv[m] = {'functions': sorted(q for (mm, q, node) in forest.functions() if mm == m),
+        inv[m] = {'locals': reference_names(forest).get(m, {}),
+                  'functions': sorted(q for (mm, q, node) in forest.functions() if mm == m),
                   'classes': sorted(st.name for st in ast.walk(tree) if isinstance(st, ast.ClassDef)),
                   'names': sorted(names)}
     return inv
@@ -618,8 +619,42 @@ def apply(forest):
     if getattr(forest, '_canon', False):
         return forest
     inv = inventory()
+    info = {'inlined': 0, 'folded': 0, 'helpers': [], 'constants': [], 'renamed': {}}
+    # step 0: local names as in the reference tree
+    for mod in list(forest.trees):
+        refs = inv.get(mod, {}).get('locals', {})
+        if not refs:
+            continue
+        t2 = None
+        for (m, q, node) in list(forest.functions()):
+            if m != mod or q not in refs or isinstance(getattr(node, '_parent', None), (ast.FunctionDef, ast.AsyncFunctionDef)):
+                continue
+            loc = _fn_locals(node)
+            cur_sk = [_skeleton(st, loc) for st in _flat_statements(node)]
+            ref = refs[q]
+            if [c[1] for c in cur_sk] == [r[1] for r in ref] and [c[0] for c in cur_sk] == [r[0] for r in ref]:
+                continue        # unchanged
+            if t2 is None:
+                t2 = copy.deepcopy(forest.trees[mod])
+                for n in ast.walk(t2):
+                    if hasattr(n, '_parent'):
+                        del n._parent
+                idx = {}
+
+                def visit(node_, prefix):
+                    for ch in ast.iter_child_nodes(node_):
+                        if isinstance(ch, (ast.FunctionDef, ast.AsyncFunctionDef, ast.ClassDef)):
+                            idx.setdefault(prefix + ch.name, ch)
+                            visit(ch, prefix + ch.name + '.')
+                        else:
+                            visit(ch, prefix)
+                visit(t2, '')
+            mp = restore_names(idx[q], ref)
+            if mp:
+                info['renamed'][f'{mod}.{q}'] = mp
+        if t2 is not None and any(k.startswith(mod + '.') for k in info['renamed']):
+            forest = forest.with_tree(mod, t2)
     cur = forest
-    info = {'inlined': 0, 'folded': 0, 'helpers': [], 'constants': []}
     for mod in list(forest.trees):
         minv = inv.get(mod, {})
         tree = forest.trees[mod]
@@ -683,3 +718,144 @@ def _qualname(tree, fn):
                 return r
         return None
     return find(tree, '')
+
+
+# ---- local names restored from the reference tree --------------------------------------------------------
+# A rule that was confirmed on the reference tree may name a local variable of the function it is anchored in.  Renaming a
+# local changes nothing a caller can observe.  Where a statement of the current function is, up to the names of locals, the
+# statement the reference function had at the corresponding place, the reference names are put back before the rules run.
+
+def _fn_locals(fn):
+    """Names bound by assignment / loops / with / except in `fn` itself or in functions nested in it, minus parameters."""
+    params = set()
+    for n in ast.walk(fn):
+        if isinstance(n, (ast.FunctionDef, ast.Lambda)):
+            a = n.args
+            params |= {x.arg for x in a.posonlyargs + a.args + a.kwonlyargs}
+            if a.vararg:
+                params.add(a.vararg.arg)
+            if a.kwarg:
+                params.add(a.kwarg.arg)
+    out = set()
+    for n in ast.walk(fn):
+        if isinstance(n, ast.Name) and isinstance(n.ctx, (ast.Store, ast.Del)):
+            out.add(n.id)
+        elif isinstance(n, ast.ExceptHandler) and n.name:
+            out.add(n.name)
+    inner = {n.name for n in ast.walk(fn) if isinstance(n, (ast.FunctionDef, ast.ClassDef)) and n is not fn}
+    return out - params - inner
+
+
+def _flat_statements(fn):
+    """The statements of `fn` in source order, compound statements represented by their header only (nested function
+    bodies included: they share the enclosing function's locals as free variables)."""
+    out = []
+
+    def walk(block):
+        for st in block:
+            out.append(st)
+            for fld in ('body', 'orelse', 'finalbody'):
+                sub = getattr(st, fld, None)
+                if isinstance(sub, list) and sub and isinstance(sub[0], ast.stmt):
+                    walk(sub)
+            if isinstance(st, ast.Try):
+                for h in st.handlers:
+                    walk(h.body)
+    walk(fn.body)
+    return out
+
+
+_BODY_FIELDS = ('body', 'orelse', 'finalbody', 'handlers')
+_COMPOUND = (ast.If, ast.For, ast.While, ast.With, ast.Try, ast.FunctionDef, ast.ClassDef, ast.AsyncFunctionDef, ast.AsyncFor, ast.AsyncWith)
+
+
+def _skeleton(st, local_names):
+    """(shape of the statement header with local names blanked, the local names in order of occurrence).  Bodies of compound
+    statements are left out (their statements have skeletons of their own)."""
+    names = []
+    out = []
+
+    def dump(node, top):
+        if isinstance(node, ast.Name):
+            if node.id in local_names:
+                names.append(node.id)
+                out.append('N(_)')
+            else:
+                out.append(f'N({node.id})')
+            return
+        if isinstance(node, ast.AST):
+            out.append(type(node).__name__)
+            out.append('(')
+            for fld, val in ast.iter_fields(node):
+                if fld in ('ctx', 'type_comment', 'kind', 'lineno', 'col_offset', 'end_lineno', 'end_col_offset'):
+                    continue
+                if top and isinstance(node, _COMPOUND) and fld in _BODY_FIELDS:
+                    continue
+                out.append(fld + '=')
+                dump(val, False)
+                out.append(',')
+            out.append(')')
+        elif isinstance(node, list):
+            out.append('[')
+            for x in node:
+                dump(x, False)
+                out.append(',')
+            out.append(']')
+        else:
+            out.append(repr(node))
+    dump(st, True)
+    return ''.join(out), names
+
+
+def reference_names(forest):
+    """{module: {qualified top-level function or method: [(skeleton, names)]}} for the inventory."""
+    out = {}
+    for m, q, node in forest.functions():
+        p = getattr(node, '_parent', None)
+        if isinstance(p, (ast.FunctionDef, ast.AsyncFunctionDef)):
+            continue        # nested functions are part of their outermost function
+        loc = _fn_locals(node)
+        out.setdefault(m, {})[q] = [list(_skeleton(st, loc)) for st in _flat_statements(node)]
+    return out
+
+
+def restore_names(fn, ref):
+    """Rename locals of `fn` (in place) to the reference names where statements correspond.  Returns the mapping used."""
+    import difflib
+    loc = _fn_locals(fn)
+    cur = [_skeleton(st, loc) for st in _flat_statements(fn)]
+    a = [c[0] for c in cur]
+    b = [r[0] for r in ref]
+    votes = {}
+    sm = difflib.SequenceMatcher(a=a, b=b, autojunk=False)
+    for blk in sm.get_matching_blocks():
+        for k in range(blk.size):
+            new_names, ref_names = cur[blk.a + k][1], ref[blk.b + k][1]
+            if len(new_names) != len(ref_names):
+                continue
+            for x, y in zip(new_names, ref_names):
+                votes.setdefault(x, {}).setdefault(y, 0)
+                votes[x][y] += 1
+    mapping = {}
+    for x, cand in votes.items():
+        y, n = max(cand.items(), key=lambda kv: kv[1])
+        if x != y and n * 2 > sum(cand.values()):        # a clear majority of the corresponding statements agree
+            mapping[x] = y
+    # injective, and no capture: the reference name must not denote something else in the current function
+    all_names = {n.id for n in ast.walk(fn) if isinstance(n, ast.Name)} | {x.arg for x in ast.walk(fn) if isinstance(x, ast.arg)}
+    taken = {}
+    for x, y in sorted(mapping.items(), key=lambda kv: -max(votes[kv[0]].values())):
+        if y in taken:
+            continue
+        if y in all_names and y not in mapping:     # y is in use and is not itself renamed away
+            continue
+        taken[y] = x
+    mapping = {x: y for y, x in taken.items()}
+    if not mapping:
+        return {}
+    for n in ast.walk(fn):
+        if isinstance(n, ast.Name) and n.id in mapping:
+            n.id = mapping[n.id]
+        elif isinstance(n, ast.ExceptHandler) and n.name in mapping:
+            n.name = mapping[n.name]
+    return mapping
